@@ -30,6 +30,24 @@ package tengo
 //@ fieldinv String.Value strlimit{C06}: len(v) <= MaxStringLen
 //@ fieldinv Bytes.Value byteslimit{C06}: len(v) <= MaxBytesLen
 
+// fields written only while their object is being constructed; calls with
+// unknown effects and callee frames therefore never change them
+//@ immutable SymbolTable.parent {C04,C11,C13}
+//@ immutable SymbolTable.block {C04,C11,C13}
+//@ immutable SymbolTable.store {C04,C11,C13}
+//@ immutable Symbol.Name {C11}
+//@ immutable Symbol.Scope {C11}
+//@ immutable Symbol.Index {C11}
+//@ immutable Compiler.file {C04,C13}
+//@ immutable Compiler.parent {C04,C13}
+//@ immutable Compiler.modules {C04,C13}
+//@ immutable Compiler.modulePath {C13}
+//@ immutable Compiler.trace {C04}
+
+// structural invariants established by the only constructors
+//@ fieldinv SymbolTable.store has_store{C04,C11}: v != nil
+//@ fieldinv Compiler.trace tracing_off{C04,C02}: v == nil
+
 // shared constants are read-only while clones run concurrently (C08): the
 // lazily filled rune cache of String is written by IndexGet and Iterate
 //@ fieldinv String.runeStr nowrite_shared_cache{C08}: false
@@ -547,8 +565,14 @@ package tengo
 //@   mode panics-allowed parent-chain
 //@   assigns typeof(SymbolTable)
 //@ func (*SymbolTable).Parent
+//@   props C11 C13
 //@   mode panics-allowed parent-chain
 //@   assigns nothing
+//@   ensures direct: !skipBlock || !t.block ==> result == t.parent
+//@ func (*SymbolTable).Fork
+//@   props C11 C13
+//@   assigns nothing
+//@   ensures forked: result != nil && fresh(result) && result.parent == t && result.block == block && result.store != nil
 //@ func (*SymbolTable).Define
 //@   props C11
 //@   mode panics-allowed parent-chain
@@ -581,20 +605,21 @@ package tengo
 //@ func (*Compiler).addConstant
 //@   props C02
 //@   mode panics-allowed parent-chain
-//@   requires c.trace == nil
 //@   assigns typeof(Compiler), heap(Object)
 //@   ensures idx: result >= 0
+//@   ensures self_kept: c.scopeIndex == old(c.scopeIndex) && sameslice(c.scopes, old(c.scopes)) && c.symbolTable == old(c.symbolTable)
 
 //@ func (*Compiler).emit
 //@   props C02 C14
 //@   requires scope: 0 <= c.scopeIndex && c.scopeIndex < len(c.scopes) && c.trace == nil && c.scopes[c.scopeIndex].SourceMap != nil
 //@   requires opcode <= parser.OpSuspend && len(operands) == spec.parser_OpcodeOperands_len(int64(opcode))
-//@   assigns c.scopes[c.scopeIndex].Instructions, heap(byte), heapmap(map[int]parser.Pos)
+//@   assigns c.scopes[c.scopeIndex].Instructions, c.scopes[c.scopeIndex].Instructions[*], heapmap(map[int]parser.Pos)
 //@   let ins0 = old(c.scopes[c.scopeIndex].Instructions)
 //@   ensures pos: result == len(ins0)
 //@   ensures length: len(c.scopes[c.scopeIndex].Instructions) == len(ins0) + 1 + int(spec.sumw(opcode))
 //@   ensures opc: c.scopes[c.scopeIndex].Instructions[result] == opcode
 //@   ensures prefix: forall i in 0..len(ins0) :: c.scopes[c.scopeIndex].Instructions[i] == old(c.scopes[c.scopeIndex].Instructions[i])
+//@   ensures array: samearray(c.scopes[c.scopeIndex].Instructions, ins0) || fresh(c.scopes[c.scopeIndex].Instructions)
 //@   ensures operand1: spec.parser_OpcodeOperands_len(int64(opcode)) >= 1 && spec.parser_OpcodeOperands_at(int64(opcode), 0) == 1
 //@              ==> c.scopes[c.scopeIndex].Instructions[result+1] == byte(operands[0])
 
@@ -632,13 +657,16 @@ package tengo
 //@                  && len(operand) == spec.parser_OpcodeOperands_len(int64(c.scopes[c.scopeIndex].Instructions[opPos]))
 //@   assigns c.scopes[c.scopeIndex].Instructions[*]
 //@   ensures opc_kept: c.scopes[c.scopeIndex].Instructions[opPos] == old(c.scopes[c.scopeIndex].Instructions[opPos])
+//@   ensures others_kept: forall i in 0..len(c.scopes[c.scopeIndex].Instructions) ::
+//@              (i <= opPos || i > opPos + int(spec.sumw(old(c.scopes[c.scopeIndex].Instructions[opPos])))) ==> c.scopes[c.scopeIndex].Instructions[i] == old(c.scopes[c.scopeIndex].Instructions[i])
 
 //@ func (*Compiler).enterScope
 //@   requires c.trace == nil && c.symbolTable != nil && 0 <= c.scopeIndex && c.scopeIndex == len(c.scopes) - 1
 //@   assigns c.scopes, c.scopeIndex, c.symbolTable, heap(compilationScope)
-//@   ensures idx: c.scopeIndex == old(c.scopeIndex) + 1 && len(c.scopes) == old(len(c.scopes)) + 1
-//@   ensures scope: c.scopeIndex < len(c.scopes) ==> c.scopes[c.scopeIndex].SourceMap != nil && len(c.scopes[c.scopeIndex].Instructions) == 0
-//@   ensures st: c.symbolTable != nil && fresh(c.symbolTable)
+//@   ensures idx: c.scopeIndex == old(c.scopeIndex) + 1 && len(c.scopes) == old(len(c.scopes)) + 1 && c.scopeIndex == len(c.scopes) - 1
+//@   ensures scope: c.scopes[c.scopeIndex].SourceMap != nil && c.scopes[c.scopeIndex].Instructions == nil
+//@   ensures st: c.symbolTable != nil && fresh(c.symbolTable) && c.symbolTable.parent == old(c.symbolTable) && !c.symbolTable.block
+//@   ensures below: forall j in 0..old(len(c.scopes)) :: sameslice(c.scopes[j].Instructions, old(c.scopes[j].Instructions)) && c.scopes[j].SourceMap == old(c.scopes[j].SourceMap)
 
 //@ func (*Compiler).error
 //@   requires c.file != nil
@@ -652,3 +680,155 @@ package tengo
 //@ func (*Compiler).currentLoop
 //@   mode panics-allowed loops
 //@   assigns nothing
+
+// tracing writers are a debugging aid: the verified configurations pass nil
+//@ func NewCompiler
+//@   props C04
+//@   requires notrace: trace == nil
+
+// ---------------------------------------------------------------------------
+// Compiler.Compile: what each arm emits (C09 export, C11 variable families,
+// C13 imports) and bookkeeping kept across the recursion
+// ---------------------------------------------------------------------------
+
+//@ func (*Compiler).Compile
+//@   props C06
+//@   requires cwf: c.file != nil && c.symbolTable != nil && c.modules != nil && 0 <= c.scopeIndex && c.scopeIndex == len(c.scopes) - 1
+//@                   && c.scopes[c.scopeIndex].SourceMap != nil
+//@   assigns * except c.scopes[c.scopeIndex].Instructions[*]
+//@   let ins0 = old(c.scopes[c.scopeIndex].Instructions)
+//@   let st0 = old(c.symbolTable)
+//@   ensures keep{C02,C09,C11,C13}: result == nil ==> c.symbolTable == st0
+//@                   && c.scopeIndex == old(c.scopeIndex) && c.scopeIndex == len(c.scopes) - 1 && c.scopes[c.scopeIndex].SourceMap != nil
+//@   ensures grows{C02}: result == nil ==> len(c.scopes[c.scopeIndex].Instructions) >= len(ins0)
+//@   ensures array{C02}: result == nil ==> samearray(c.scopes[c.scopeIndex].Instructions, ins0) || fresh(c.scopes[c.scopeIndex].Instructions)
+//@   ensures below{C02}: result == nil ==> forall j in 0..c.scopeIndex ::
+//@                   sameslice(c.scopes[j].Instructions, old(c.scopes[j].Instructions)) && c.scopes[j].SourceMap == old(c.scopes[j].SourceMap)
+//@   ensures prefix{C02}: result == nil ==> forall i in 0..len(ins0) :: c.scopes[c.scopeIndex].Instructions[i] == old(c.scopes[c.scopeIndex].Instructions[i])
+//@   ensures export_immutable{C09,C13}: is(node, *parser.ExportStmt) && result == nil && c.parent != nil
+//@              ==> len(c.scopes[c.scopeIndex].Instructions) >= 3
+//@                  && c.scopes[c.scopeIndex].Instructions[len(c.scopes[c.scopeIndex].Instructions)-3] == parser.OpImmutable
+//@                  && c.scopes[c.scopeIndex].Instructions[len(c.scopes[c.scopeIndex].Instructions)-2] == parser.OpReturn
+//@                  && c.scopes[c.scopeIndex].Instructions[len(c.scopes[c.scopeIndex].Instructions)-1] == 1
+//@   loop 0 invariant k: c.symbolTable == st0 && c.scopeIndex == old(c.scopeIndex) && c.scopeIndex == len(c.scopes) - 1 && c.scopes[c.scopeIndex].SourceMap != nil
+//@   loop 0 invariant g: len(c.scopes[c.scopeIndex].Instructions) >= len(ins0) && (samearray(c.scopes[c.scopeIndex].Instructions, ins0) || fresh(c.scopes[c.scopeIndex].Instructions))
+//@   loop 0 invariant b: forall j in 0..c.scopeIndex :: sameslice(c.scopes[j].Instructions, old(c.scopes[j].Instructions)) && c.scopes[j].SourceMap == old(c.scopes[j].SourceMap)
+//@   loop 0 invariant p: forall i in 0..len(ins0) :: c.scopes[c.scopeIndex].Instructions[i] == old(c.scopes[c.scopeIndex].Instructions[i])
+//@   loop 1 invariant k: c.symbolTable != nil && c.symbolTable.parent == st0 && c.scopeIndex == old(c.scopeIndex) && c.scopeIndex == len(c.scopes) - 1 && c.scopes[c.scopeIndex].SourceMap != nil
+//@   loop 1 invariant g: len(c.scopes[c.scopeIndex].Instructions) >= len(ins0) && (samearray(c.scopes[c.scopeIndex].Instructions, ins0) || fresh(c.scopes[c.scopeIndex].Instructions))
+//@   loop 1 invariant b: forall j in 0..c.scopeIndex :: sameslice(c.scopes[j].Instructions, old(c.scopes[j].Instructions)) && c.scopes[j].SourceMap == old(c.scopes[j].SourceMap)
+//@   loop 1 invariant p: forall i in 0..len(ins0) :: c.scopes[c.scopeIndex].Instructions[i] == old(c.scopes[c.scopeIndex].Instructions[i])
+//@   loop 2 invariant k: c.symbolTable == st0 && c.scopeIndex == old(c.scopeIndex) && c.scopeIndex == len(c.scopes) - 1 && c.scopes[c.scopeIndex].SourceMap != nil
+//@   loop 2 invariant g: len(c.scopes[c.scopeIndex].Instructions) >= len(ins0) && (samearray(c.scopes[c.scopeIndex].Instructions, ins0) || fresh(c.scopes[c.scopeIndex].Instructions))
+//@   loop 2 invariant b: forall j in 0..c.scopeIndex :: sameslice(c.scopes[j].Instructions, old(c.scopes[j].Instructions)) && c.scopes[j].SourceMap == old(c.scopes[j].SourceMap)
+//@   loop 2 invariant p: forall i in 0..len(ins0) :: c.scopes[c.scopeIndex].Instructions[i] == old(c.scopes[c.scopeIndex].Instructions[i])
+//@   loop 3 invariant k: c.symbolTable == st0 && c.scopeIndex == old(c.scopeIndex) && c.scopeIndex == len(c.scopes) - 1 && c.scopes[c.scopeIndex].SourceMap != nil
+//@   loop 3 invariant g: len(c.scopes[c.scopeIndex].Instructions) >= len(ins0) && (samearray(c.scopes[c.scopeIndex].Instructions, ins0) || fresh(c.scopes[c.scopeIndex].Instructions))
+//@   loop 3 invariant b: forall j in 0..c.scopeIndex :: sameslice(c.scopes[j].Instructions, old(c.scopes[j].Instructions)) && c.scopes[j].SourceMap == old(c.scopes[j].SourceMap)
+//@   loop 3 invariant p: forall i in 0..len(ins0) :: c.scopes[c.scopeIndex].Instructions[i] == old(c.scopes[c.scopeIndex].Instructions[i])
+//@   loop 6 invariant k: c.symbolTable == st0 && c.scopeIndex == old(c.scopeIndex) && c.scopeIndex == len(c.scopes) - 1 && c.scopes[c.scopeIndex].SourceMap != nil
+//@   loop 6 invariant g: len(c.scopes[c.scopeIndex].Instructions) >= len(ins0) && (samearray(c.scopes[c.scopeIndex].Instructions, ins0) || fresh(c.scopes[c.scopeIndex].Instructions))
+//@   loop 6 invariant b: forall j in 0..c.scopeIndex :: sameslice(c.scopes[j].Instructions, old(c.scopes[j].Instructions)) && c.scopes[j].SourceMap == old(c.scopes[j].SourceMap)
+//@   loop 6 invariant p: forall i in 0..len(ins0) :: c.scopes[c.scopeIndex].Instructions[i] == old(c.scopes[c.scopeIndex].Instructions[i])
+//@   loop 4 invariant k: c.symbolTable != nil && c.symbolTable.parent == st0 && !c.symbolTable.block && c.scopeIndex == old(c.scopeIndex) + 1 && c.scopeIndex == len(c.scopes) - 1
+//@                   && c.scopes[c.scopeIndex].SourceMap != nil && c.scopes[c.scopeIndex].Instructions == nil
+//@   loop 4 invariant b: forall j in 0..old(c.scopeIndex)+1 :: sameslice(c.scopes[j].Instructions, old(c.scopes[j].Instructions)) && c.scopes[j].SourceMap == old(c.scopes[j].SourceMap)
+//@   loop 5 invariant k: c.symbolTable == st0 && c.scopeIndex == old(c.scopeIndex) && c.scopeIndex == len(c.scopes) - 1 && c.scopes[c.scopeIndex].SourceMap != nil
+//@   loop 5 invariant g: len(c.scopes[c.scopeIndex].Instructions) >= len(ins0) && (samearray(c.scopes[c.scopeIndex].Instructions, ins0) || fresh(c.scopes[c.scopeIndex].Instructions))
+//@   loop 5 invariant b: forall j in 0..c.scopeIndex :: sameslice(c.scopes[j].Instructions, old(c.scopes[j].Instructions)) && c.scopes[j].SourceMap == old(c.scopes[j].SourceMap)
+//@   loop 5 invariant p: forall i in 0..len(ins0) :: c.scopes[c.scopeIndex].Instructions[i] == old(c.scopes[c.scopeIndex].Instructions[i])
+
+// embedder-supplied module lookup: cannot reach compiler memory
+//@ func interface ModuleGetter.Get
+//@   assigns nothing
+//@ func interface Importable.Import
+//@   assigns nothing
+
+//@ func (*Compiler).leaveScope
+//@   props C02
+//@   requires c.symbolTable != nil && 1 <= c.scopeIndex && c.scopeIndex == len(c.scopes) - 1
+//@   assigns c.scopes, c.scopeIndex, c.symbolTable
+//@   ensures idx: c.scopeIndex == old(c.scopeIndex) - 1 && c.scopeIndex == len(c.scopes) - 1
+//@   ensures out: sameslice(instructions, old(c.scopes[c.scopeIndex].Instructions)) && sourceMap == old(c.scopes[c.scopeIndex].SourceMap)
+//@   ensures below: forall j in 0..len(c.scopes) :: sameslice(c.scopes[j].Instructions, old(c.scopes[j].Instructions)) && c.scopes[j].SourceMap == old(c.scopes[j].SourceMap)
+//@   ensures st: !old(c.symbolTable.block) ==> c.symbolTable == old(c.symbolTable.parent)
+
+// dead-code elimination: closures passed to iterateInstructions are outside
+// the verified subset for now; frame and shape are assumed (see DESIGN.md C03)
+//@ func (*Compiler).optimizeFunc
+//@   mode assumed higher-order closures over iterateInstructions
+//@   requires 0 <= c.scopeIndex && c.scopeIndex == len(c.scopes) - 1
+//@   assigns c.scopes[c.scopeIndex].Instructions, c.scopes[c.scopeIndex].SourceMap, heapmap(map[int]parser.Pos)
+//@   ensures c.scopes[c.scopeIndex].SourceMap != nil
+
+// module compilation runs a forked compiler on fresh state; the importing
+// compiler's scopes are not touched (assumed: recover inside the parser)
+//@ func (*Compiler).compileModule
+//@   mode assumed runs the parser (defer/recover) and a forked compiler
+//@   assigns * except none(byte), none(compilationScope), none([]compilationScope)
+//@   ensures res1 == nil ==> res0 != nil
+//@   ensures self_kept: c.scopeIndex == old(c.scopeIndex) && c.symbolTable == old(c.symbolTable)
+
+// the statement compilers keep the same bookkeeping as Compile
+
+//@ func (*Compiler).compileForStmt
+//@   props C02
+//@   mode assumed needs the loop-record invariant (break/continue patch lists); see DESIGN.md C02
+//@   requires cwf: c.file != nil && c.symbolTable != nil && c.modules != nil && 0 <= c.scopeIndex && c.scopeIndex == len(c.scopes) - 1
+//@                   && c.scopes[c.scopeIndex].SourceMap != nil
+//@   assigns * except c.scopes[c.scopeIndex].Instructions[*]
+//@   let ins0 = old(c.scopes[c.scopeIndex].Instructions)
+//@   let st0 = old(c.symbolTable)
+//@   ensures keep{C02,C09,C11,C13}: result == nil ==> c.symbolTable == st0
+//@                   && c.scopeIndex == old(c.scopeIndex) && c.scopeIndex == len(c.scopes) - 1 && c.scopes[c.scopeIndex].SourceMap != nil
+//@   ensures grows{C02}: result == nil ==> len(c.scopes[c.scopeIndex].Instructions) >= len(ins0)
+//@   ensures array{C02}: result == nil ==> samearray(c.scopes[c.scopeIndex].Instructions, ins0) || fresh(c.scopes[c.scopeIndex].Instructions)
+//@   ensures below{C02}: result == nil ==> forall j in 0..c.scopeIndex ::
+//@                   sameslice(c.scopes[j].Instructions, old(c.scopes[j].Instructions)) && c.scopes[j].SourceMap == old(c.scopes[j].SourceMap)
+//@   ensures prefix{C02}: result == nil ==> forall i in 0..len(ins0) :: c.scopes[c.scopeIndex].Instructions[i] == old(c.scopes[c.scopeIndex].Instructions[i])
+
+//@ func (*Compiler).compileForInStmt
+//@   props C02
+//@   mode assumed needs the loop-record invariant (break/continue patch lists); see DESIGN.md C02
+//@   requires cwf: c.file != nil && c.symbolTable != nil && c.modules != nil && 0 <= c.scopeIndex && c.scopeIndex == len(c.scopes) - 1
+//@                   && c.scopes[c.scopeIndex].SourceMap != nil
+//@   assigns * except c.scopes[c.scopeIndex].Instructions[*]
+//@   let ins0 = old(c.scopes[c.scopeIndex].Instructions)
+//@   let st0 = old(c.symbolTable)
+//@   ensures keep{C02,C09,C11,C13}: result == nil ==> c.symbolTable == st0
+//@                   && c.scopeIndex == old(c.scopeIndex) && c.scopeIndex == len(c.scopes) - 1 && c.scopes[c.scopeIndex].SourceMap != nil
+//@   ensures grows{C02}: result == nil ==> len(c.scopes[c.scopeIndex].Instructions) >= len(ins0)
+//@   ensures array{C02}: result == nil ==> samearray(c.scopes[c.scopeIndex].Instructions, ins0) || fresh(c.scopes[c.scopeIndex].Instructions)
+//@   ensures below{C02}: result == nil ==> forall j in 0..c.scopeIndex ::
+//@                   sameslice(c.scopes[j].Instructions, old(c.scopes[j].Instructions)) && c.scopes[j].SourceMap == old(c.scopes[j].SourceMap)
+//@   ensures prefix{C02}: result == nil ==> forall i in 0..len(ins0) :: c.scopes[c.scopeIndex].Instructions[i] == old(c.scopes[c.scopeIndex].Instructions[i])
+
+//@ func (*Compiler).compileLogical
+//@   props C02
+//@   requires cwf: c.file != nil && c.symbolTable != nil && c.modules != nil && 0 <= c.scopeIndex && c.scopeIndex == len(c.scopes) - 1
+//@                   && c.scopes[c.scopeIndex].SourceMap != nil
+//@   assigns * except c.scopes[c.scopeIndex].Instructions[*]
+//@   let ins0 = old(c.scopes[c.scopeIndex].Instructions)
+//@   let st0 = old(c.symbolTable)
+//@   ensures keep{C02,C09,C11,C13}: result == nil ==> c.symbolTable == st0
+//@                   && c.scopeIndex == old(c.scopeIndex) && c.scopeIndex == len(c.scopes) - 1 && c.scopes[c.scopeIndex].SourceMap != nil
+//@   ensures grows{C02}: result == nil ==> len(c.scopes[c.scopeIndex].Instructions) >= len(ins0)
+//@   ensures array{C02}: result == nil ==> samearray(c.scopes[c.scopeIndex].Instructions, ins0) || fresh(c.scopes[c.scopeIndex].Instructions)
+//@   ensures below{C02}: result == nil ==> forall j in 0..c.scopeIndex ::
+//@                   sameslice(c.scopes[j].Instructions, old(c.scopes[j].Instructions)) && c.scopes[j].SourceMap == old(c.scopes[j].SourceMap)
+//@   ensures prefix{C02}: result == nil ==> forall i in 0..len(ins0) :: c.scopes[c.scopeIndex].Instructions[i] == old(c.scopes[c.scopeIndex].Instructions[i])
+
+//@ func (*Compiler).compileAssign
+//@   props C02
+//@   requires cwf: c.file != nil && c.symbolTable != nil && c.modules != nil && 0 <= c.scopeIndex && c.scopeIndex == len(c.scopes) - 1
+//@                   && c.scopes[c.scopeIndex].SourceMap != nil
+//@   assigns * except c.scopes[c.scopeIndex].Instructions[*]
+//@   let ins0 = old(c.scopes[c.scopeIndex].Instructions)
+//@   let st0 = old(c.symbolTable)
+//@   ensures keep{C02,C09,C11,C13}: result == nil ==> c.symbolTable == st0
+//@                   && c.scopeIndex == old(c.scopeIndex) && c.scopeIndex == len(c.scopes) - 1 && c.scopes[c.scopeIndex].SourceMap != nil
+//@   ensures grows{C02}: result == nil ==> len(c.scopes[c.scopeIndex].Instructions) >= len(ins0)
+//@   ensures array{C02}: result == nil ==> samearray(c.scopes[c.scopeIndex].Instructions, ins0) || fresh(c.scopes[c.scopeIndex].Instructions)
+//@   ensures below{C02}: result == nil ==> forall j in 0..c.scopeIndex ::
+//@                   sameslice(c.scopes[j].Instructions, old(c.scopes[j].Instructions)) && c.scopes[j].SourceMap == old(c.scopes[j].SourceMap)
+//@   ensures prefix{C02}: result == nil ==> forall i in 0..len(ins0) :: c.scopes[c.scopeIndex].Instructions[i] == old(c.scopes[c.scopeIndex].Instructions[i])
